@@ -210,7 +210,7 @@ Example C12_example_hypotheses :
            q_prev := Some {| pv_inputs := q_inputs Ex.q; pv_internal := []; pv_funcs := None |} |}
      = (Err ValueError, [], [])
   /\ map_model (fun _ => [s "would-run"]) Ex.q
-     = (Ok tt, [E_dump_info; E_dump_inputs; E_dump_defaults; E_init_arrays], [s "would-run"]).
+     = (Ok tt, [E_dump_inputs; E_dump_defaults; E_dump_info; E_init_arrays], [s "would-run"]).
 Proof.
   split; [intros h [<-|[<-|[]]]; discriminate|]. split; vm_compute; reflexivity.
 Qed.
